@@ -343,4 +343,83 @@ example :
           o.apps.map (fun a => a.scan) = [false, false] ∧ o.users = true) := by
   refine ⟨by decide, by decide, by decide, _, rfl, by decide, by decide⟩
 
+/-! ### objects with the same name
+
+`describe_state()` builds Python dictionaries keyed by name, so of two LIVE components with one name the dictionary keeps the LAST;
+the specification ("the component named X") and the model's association lists pick the FIRST.  What C09 says: a leaf shows THE live
+component of that name — the statement presupposes that live names are distinct per container (`Truth.NamesDistinct`: true of the
+repaired simulator — installing replaces a namesake (F-22), `add_file(force)` / `copy_file` no longer add a second live file
+(fix dab3313); deleted items keep their names but live in separate lists that `describe` does not key).  Under that hypothesis the
+model's first-match lookup IS the dictionary lookup, so every `C09_*_eq_spec` theorem speaks about the real dictionaries; the rig
+counts how often a trajectory reaches a duplicate live name (evidence key `truth:steps-with-duplicate-live-names`). -/
+
+/-- the value `{name(x): f(x) for x in l}[k]` holds: the LAST pair keyed `k` -/
+def lookupLast {α} (k : String) : List (String × α) → Option α
+  | [] => none
+  | (k', v) :: rest =>
+    match lookupLast k rest with
+    | some w => some w
+    | none => if k = k' then some v else none
+
+theorem lookupLast_none_of_not_mem {α} (k : String) (l : List (String × α)) (h : k ∉ l.map Prod.fst) : lookupLast k l = none := by
+  induction l with
+  | nil => rfl
+  | cons p rest ih =>
+    obtain ⟨k', v⟩ := p
+    simp only [List.map_cons, List.mem_cons, not_or] at h
+    simp [lookupLast, ih h.2, h.1]
+
+/-- with distinct keys, first match = what the Python dictionary holds -/
+theorem C09_first_match_is_dict_lookup {α} (k : String) (l : List (String × α)) (h : (l.map Prod.fst).Nodup) :
+    lookupS k l = lookupLast k l := by
+  induction l with
+  | nil => rfl
+  | cons p rest ih =>
+    obtain ⟨k', v⟩ := p
+    simp only [List.map_cons, List.nodup_cons] at h
+    by_cases hk : k = k'
+    · subst hk
+      simp [lookupS, lookupLast, lookupLast_none_of_not_mem k rest h.1]
+    · simp [lookupS, lookupLast, hk, ih h.2]
+      cases lookupLast k rest <;> rfl
+
+/-- and with a repeated key they differ: why the hypothesis is needed -/
+theorem C09_duplicate_names_counterexample :
+    lookupS "a.txt" [("a.txt", 1), ("a.txt", 2)] ≠ lookupLast "a.txt" [("a.txt", 1), ("a.txt", 2)] := by decide
+
+/-- live names are distinct per container -/
+def Truth.NamesDistinct (t : Truth) : Prop :=
+  (t.nodes.map (fun n => n.hostname)).Nodup ∧
+  ∀ n ∈ t.nodes, (n.services.map (fun s => s.name)).Nodup ∧ (n.apps.map (fun s => s.name)).Nodup ∧
+    (n.folders.map (fun f => f.name)).Nodup ∧ (n.nics.map (fun x => x.num)).Nodup ∧ ∀ f ∈ n.folders, (f.files.map (fun x => x.name)).Nodup
+
+/-- under `NamesDistinct` every name-keyed dictionary of `describe` has distinct keys (so `lookupS` on it is the dictionary lookup) -/
+theorem C09_describe_keys_distinct (t : Truth) (h : t.NamesDistinct) :
+    ((describe t).nodes.map Prod.fst).Nodup ∧
+    ∀ n ∈ t.nodes, (((describeNode n).2.services).map Prod.fst).Nodup ∧ (((describeNode n).2.apps).map Prod.fst).Nodup ∧
+      (((describeNode n).2.folders).map Prod.fst).Nodup ∧
+      ∀ f ∈ n.folders, (((describeFolder f).2.files).map Prod.fst).Nodup := by
+  refine ⟨?_, ?_⟩
+  · have := h.1
+    simpa [describe, describeNode, List.map_map, Function.comp_def] using this
+  · intro n hn
+    obtain ⟨h1, h2, h3, _, h5⟩ := h.2 n hn
+    refine ⟨?_, ?_, ?_, ?_⟩
+    · simpa [describeNode, describeSoftware, List.map_map, Function.comp_def] using h1
+    · simpa [describeNode, describeSoftware, List.map_map, Function.comp_def] using h2
+    · simpa [describeNode, describeFolder, List.map_map, Function.comp_def] using h3
+    · intro f hf
+      simpa [describeFolder, describeFile, List.map_map, Function.comp_def] using h5 f hf
+
+example : exTruth.NamesDistinct := by
+  refine ⟨by decide, ?_⟩
+  intro n hn
+  simp only [exTruth, List.mem_singleton] at hn
+  subst hn
+  refine ⟨by decide, by decide, by decide, by decide, ?_⟩
+  intro f hf
+  simp only [List.mem_singleton] at hf
+  subst hf
+  decide
+
 end Primaite.Obs
